@@ -293,4 +293,76 @@ PROPS = {
     ),
 }
 
+P4_TB = [GO_LIBS, "go-pfcp IE codecs", "harness P4Runtime server (harness/internal/sysh/p4srv.go): Write semantics of the P4Runtime specification "
+         "(INSERT of an existing key ALREADY_EXISTS, MODIFY/DELETE of a missing key NOT_FOUND, batch continues on error, one status per update), "
+         "meters as arrays of configurations, serves the repository's conf/p4/bin/p4info.txt; the real switch (ONOS UP4 application) is not run",
+         "p4runtime / grpc / protobuf Go libraries", "loopback UDP/gRPC", "verif hook VerifUP4Stats (pool occupancy, read-only)"]
+
+PROPS["C04"] = dict(
+    lean=["Upf.Props.C04"],
+    level="proof",
+    claim="Theorems (all inputs): the action of every terminations entry follows FAR and QER exactly as stated (drop iff the FAR drops or the gate of that "
+          "direction is closed, else forward with FAR TEID, QFI, traffic class, application-meter cell, counter); sessions entries sit under N3 address+TEID / "
+          "UE address, buffering iff the FAR buffers, else pointing to the tunnel peer; the tunnel-peer entry carries access address, outer-header address and "
+          "port; reference counting of tunnel peers (last user deletes entry and returns the ID, a remaining user keeps both, a second user re-uses the ID). "
+          "Per history (T2): the model of up4.go + p4rt_translator.go + the session handlers, run with the environment's observed choices, must predict every "
+          "Write RPC of the real agent update by update and status by status, the switch content and the plug-in's bookkeeping; the oracle compares the switch "
+          "with the image of the live sessions after EVERY response, and after a kill + restart against the same switch.",
+    note="partial: `tables = image(live)` for all histories is not a theorem of the model of the current code, because it is false of the code: four classes "
+         "of histories (listed as open known findings, each predicted exactly by the model) leave the switch different from the image. The image clause is "
+         "decided per observed history. Meter cells of a killed incarnation are not reset at start-up; the crash clause of the statement names table entries "
+         "only and is checked as such. Priority of an applications entry is not part of the image (the statement asks for one entry per filter).",
+    rule="rounds (6 quick / 60 thorough) with a drawn slice ID, default TC and QFI->TC map: start, 1-2 associations, a random history of 25 (60) requests over "
+         "up to 6 live sessions of 8 shapes (per-direction / shared / no QERs, session QER, application filters shared between sessions, buffering FAR, further "
+         "PDRs sharing TEID / UE address, closed gates) sharing 3 gNB peers: establish, delete, buffer (with / without forwarding parameters), forward to the "
+         "same / another gNB, QER update (rates, gates, QFI), FAR action, remove / create PDR, PDR update (precedence, filter); every second round the agent "
+         "is SIGKILLed and restarted against the same switch and the history continues; non-trivial = an accepted request",
+    trusted_base=P4_TB,
+    assumptions=["IPv4 only", "values inside their field widths", "a refused establishment's SEID is not observable: the model keys its leftovers by a value no real SEID can take"],
+    timeout=dict(quick=900, thorough=7200),
+)
+PROPS["C15"] = dict(
+    lean=["Upf.Props.C15"],
+    level="proof",
+    claim="Theorems, for every request sequence of any length and EVERY environment (every identifier Pop() may hand out, every Write RPC served / failed as a "
+          "whole / any update refused with any status): the two meter pools and the meters map stay exclusive (a cell is never free while a recorded meter "
+          "holds it, never held by two meters, always inside 1..1023); application-meter operations never touch the session pool nor the reverse, and a failed "
+          "meter Write returns exactly the popped cells to the pool they came from; sendCreate / sendUpdate report success only if no Write of the request "
+          "failed (ALREADY_EXISTS excepted). T2: the same model must predict the real agent under injected failures: every (request, write position, "
+          "failure kind) of three scenario families, plus random multi-fault runs, each followed by further sessions that would receive a wrongly recycled "
+          "identifier; oracles on the observation: identifiers in installed entries are exclusive, pool occupancy read through the hook adds up "
+          "(free + held = pool size per meter pool; free + held <= size for counters), the PFCP cause after a failed write is not 'accepted'.",
+    note="partial: counter cells, tunnel-peer IDs and application IDs are decided by correspondence + oracles (evaluated on model state and observation after "
+         "every event), not by a theorem; leaks (identifiers lost after a refused request) are not violations of this property and are not reported here. "
+         "The removal part of a modification (Remove PDR/FAR/QER) issues best-effort writes whose failure is swallowed by design (resetMeters, "
+         "removeGTPTunnelPeer); the 'failed write => rejected' theorem covers establishment and the create/update part of a modification.",
+    rule="three scenario families of 8-11 requests over sessions sharing a gNB and an application filter; one fault-free run counts the Writes of every step; "
+         "then one fresh run per (step, k-th Write of the step) with the RPC failed as a whole, and (thorough: all; quick: every second) with the first / second "
+         "update refused (INTERNAL / RESOURCE_EXHAUSTED); then random multi-fault runs (6 / 60 per family); every run ends with 3 further sessions; "
+         "non-trivial = an accepted request",
+    trusted_base=P4_TB,
+    assumptions=["a failing Write is either refused as a whole (nothing applied) or answered with per-update statuses (the refused update not applied)"],
+    timeout=dict(quick=900, thorough=7200),
+)
+PROPS["C16"] = dict(
+    lean=["Upf.Props.C16"],
+    level="proof",
+    claim="Theorems: for ALL inputs inside the widths of their Go types and the configuration bounds of the property (slice <= 15, TC <= 3, QFI < 64), every "
+          "entry builder of p4rt_translator.go (interfaces, sessions up/down incl. buffering, terminations up/down incl. drop, applications with all 8 "
+          "combinations of optional fields, tunnel peers) returns an entry that is valid for the P4Info regenerated from conf/p4/bin/p4info.txt: table exists, "
+          "match fields belong to it with declared kind and width, action admitted by the table with exactly its parameters, non-zero priority where the "
+          "table has ternary/range fields (applications: for every PDR verifyPDR lets through); meter and counter indices from the pools lie inside the "
+          "declared arrays; GetSliceTCMeterIndex (generated from utils.go) stays below the slice meter's size; the compiled constants resolve to the named "
+          "pipeline objects. T2: EVERY update of EVERY Write the real agent issues (C16 family and every other UP4 run) is validated by the same predicate; the "
+          "repository's generator is built and run 12 (60) times on the shipped P4Info and compared byte for byte (after gofmt) with the committed constants.",
+    note="partial: generator determinism is observed over repeated runs, not proved; protobuf encoding is the library's; LPM values are not required to have "
+         "zero bits beyond the prefix (the property does not ask for it).",
+    rule="generator runs; then 4 (16) configurations (slice 0/15/7/1, default TC 0-3, a QFI->TC map): every precedence in {0,1,255,256,32768,65534,65535} x every "
+         "SDF filter of the pool (quick: a third), boundary TEIDs / gNB addresses / MBRs (0 .. 2^40-1) / QFIs {0,1,9,32,63} / gates, FAR actions incl. buffer "
+         "and drop; establish, update QER / FAR, delete; non-trivial = an accepted request",
+    trusted_base=P4_TB + ["gofmt (as the repository's make target formats the generated file)"],
+    assumptions=["values arrive inside the widths of their Go types (uint8/uint16/uint32): by typing", "QFI < 64 as go-pfcp decodes it; slice ID <= 15 and TC <= 3 as the property's quantifier states"],
+    timeout=dict(quick=900, thorough=7200),
+)
+
 NOT_APPLICABLE = {}
